@@ -262,6 +262,9 @@ structure Mon where
   /-- C08 ghosts: cumulative amount granted to / relayed by (subkey, denom) -/
   granted : AMap (String × String) Nat := []
   spent : AMap (String × String) Nat := []
+  /-- C08 ghost: the deadline the admins' calls gave each subkey's allowance (changed only by an Increase /
+  Decrease that names an expiry; an entry deleted by a Decrease starts afresh) -/
+  gexp : AMap String Expiration := []
 
 def mk (p sig d : String) : Finding := ⟨p, sig, d⟩
 
@@ -326,7 +329,7 @@ def monitorOp (mu : Mon) (prev : Args) (toks : List String) (implOk : Bool) (out
     let a := match toks with | "exec" :: _ :: _ :: rest => args rest | _ :: rest => args rest | [] => []
     let isInst := kind == "inst"
     let fresh := isInst || !mu.inited
-    let mu := if fresh then { mu with inited := true, granted := [], spent := [], frozenCfg := none } else mu
+    let mu := if fresh then { mu with inited := true, granted := [], spent := [], frozenCfg := none, gexp := [] } else mu
     let pAdmins := obsAdmins prev; let cAdmins := obsAdmins cur
     let pMut := obsMutable prev; let cMut := obsMutable cur
     let pRaw := obsRaw prev; let cRaw := obsRaw cur
@@ -411,7 +414,36 @@ def monitorOp (mu : Mon) (prev : Args) (toks : List String) (implOk : Bool) (out
           let k := (snd, d)
           { mu with spent := mu.spent.set k ((mu.spent.get? k).getD 0 + NativeBalance.total sent d) }) mu
       else mu
-    let fg := if !mu.sub then [] else
+    -- ghost deadline of every subkey's allowance
+    let gPrev := mu.gexp
+    let mu := if fresh || !mu.sub || !implOk then mu else
+      if kind == "increase_allowance" then
+        let e := match a.optExp "expires" with
+          | some e => e
+          | none => (mu.gexp.get? spender).getD .never
+        { mu with gexp := mu.gexp.set spender e }
+      else if kind == "decrease_allowance" then
+        if (AMap.get? cRaw spender).isNone then { mu with gexp := mu.gexp.erase spender }
+        else match a.optExp "expires" with
+          | some e => { mu with gexp := mu.gexp.set spender e }
+          | none => mu
+      else mu
+    let fexp := if fresh || !mu.sub then [] else
+      -- the stored deadline is the one the admins' calls set
+      (cRaw.filterMap fun (x, al) =>
+        match mu.gexp.get? x with
+        | some g => if al.expires == g then none else
+            some (mk "C08" "C08/expiry-drift" s!"subkey={x} stored={al.expires.render} set_by_admins={g.render} after {kind}")
+        | none => none) ++
+      -- a bank send relayed for a subkey whose allowance deadline (as set by the admins) has passed
+      (if kind == "execute" && implOk && !wasAdmin && !sent.isEmpty then
+        match gPrev.get? snd with
+        | some g => if g.isExpired mu.blk then
+            [mk "C08" "C08/spend-after-deadline" s!"subkey={snd} deadline={g.render}",
+             mk "C07" "C07/relay-after-deadline" s!"subkey={snd} deadline={g.render}"] else []
+        | none => []
+       else [])
+    let fg := if !mu.sub then [] else fexp ++
       (mu.spent.filterMap fun (k, sp) =>
         let g := (mu.granted.get? k).getD 0
         if sp ≤ g then none else some (mk "C08" "C08/cumulative" s!"subkey={k.1} denom={k.2} spent={sp} granted={g}")) ++
